@@ -7,9 +7,10 @@
     - fiano Ranges.SortAndMerge sorts the receiver's array in place and re-allocates
       (MergeRanges builds a fresh slice) only when there are at least two ranges;
     - References.SortAndMerge calls it on every reference, then grows the first
-      reference of each group with [append(curRef.Ranges, ref.Ranges...)]: in place
-      when the capacity allows, in a fresh array otherwise; and sorts+merges the
-      grown slice when the group is flushed;
+      reference of each group with
+      [append(curRef.Ranges[:n:n], ref.Ranges...)]: always in a fresh array (the
+      full slice expression leaves no capacity), never in the caller's; and
+      sorts+merges the grown slice when the group is flushed;
     - fiano Range.Exclude sorts the array of the exclusion list it is given.
 
     The validators feed slices that still belong to the log (MeasuredData
@@ -80,19 +81,12 @@ Definition sort_inplace (h : heap) (x : rs) : heap :=
   | Alias s => if (sl_len s <? 2)%nat then h else wr h (sl_arr s) (sl_off s) (sort_off (rd h s))
   end.
 
-(** [append(x, vals...)] *)
-Definition app_rs (h : heap) (x : rs) (vals : list range) : heap * rs :=
+(** [append(x[:len(x):len(x)], vals...)]: with nothing to append the same slice
+    (its capacity clipped, which nothing looks at any more), otherwise a new array *)
+Definition app_rs (h : heap) (x : rs) (vals : list range) : rs :=
   match vals with
-  | [] => (h, x)
-  | _ =>
-      match x with
-      | Own l => (h, Own (l ++ vals))
-      | Alias s =>
-          if (sl_len s + length vals <=? sl_cap s)%nat
-          then (wr h (sl_arr s) (sl_off s + sl_len s) vals,
-                Alias (mkSl (sl_arr s) (sl_off s) (sl_len s + length vals) (sl_cap s)))
-          else (h, Own (rd h s ++ vals))
-      end
+  | [] => x
+  | _ => Own (val h x ++ vals)
   end.
 
 (** ** References.SortAndMerge *)
@@ -134,7 +128,7 @@ Fixpoint hloop (h : heap) (cur : href) (l : list href) : heap * list href :=
   | [] => let '(h1, x) := rsm h (h_rs cur) in (h1, [set_rs cur x])
   | r :: t =>
       if art_eqb (h_art r) (h_art cur) && mapper_eqb (h_map r) (h_map cur)
-      then let '(h1, x) := app_rs h (h_rs cur) (val h (h_rs r)) in hloop h1 (set_rs cur x) t
+      then hloop h (set_rs cur (app_rs h (h_rs cur) (val h (h_rs r)))) t
       else
         match rs_len (h_rs cur) with
         | O => hloop h r t                           (* an empty curRef is dropped *)
@@ -151,7 +145,7 @@ Definition fail_of {A B} (o : outcome A) : outcome B :=
 (** [References.SortAndMerge]; the order of sort.Slice as in Model/Validators.v [sm] *)
 Definition hsm (h : heap) (s : list href) : heap * outcome (list href) :=
   match s with
-  | [] | [_] => (h, Ok s)
+  | [] => (h, Ok [])
   | _ =>
       if hconflict s then (h, Panic)
       else
@@ -237,11 +231,12 @@ Definition hvap_actor (h : heap) (idx : Z) (prev cur : list href) (pa : option Z
                         match o3 with
                         | Ok s1 =>
                             match excl_walk (map (hval h3) s0) (map (hval h3) s1) with
-                            | Ok [] => (h3, Ok (i2, Some a))
                             | Ok nm =>
-                                let pn := refs_resolve nm in
-                                let i3 := if snd pn then [mkVI idx 3 [] []] else [] in
-                                (h3, Ok (i2 ++ i3 ++ [mkVI idx 4 (fst pn) (map (hval h3) cur)], Some a))
+                                if has_bytes nm then
+                                  let pn := refs_resolve nm in
+                                  let i3 := if snd pn then [mkVI idx 3 [] []] else [] in
+                                  (h3, Ok (i2 ++ i3 ++ [mkVI idx 4 (fst pn) (map (hval h3) cur)], Some a))
+                                else (h3, Ok (i2, Some a))
                             | o => (h3, fail_of o)
                             end
                         | o => (h3, fail_of o)
@@ -287,7 +282,7 @@ Fixpoint hvfc_measured (h : heap) (measured : list href) (l : list hstep) : heap
   match l with
   | [] => (h, Ok measured)
   | st :: t =>
-      let '(h1, o) := hsm h (measured ++ map alias (hs_meas st)) in
+      let '(h1, o) := hsm h (measured ++ fst (hresolve h (map alias (hs_meas st)))) in
       match o with
       | Ok m => hvfc_measured h1 m t
       | _ => (h1, o)
@@ -324,9 +319,10 @@ Definition hvfc (h : heap) (files : outcome (list ref)) (l : list hstep) : heap 
           match files with
           | Ok [] => (h1, Ok [])                 (* Exclude of nothing: nil, no issue *)
           | Ok frefs =>
-              (* data.References.Exclude(measured...): the files are the code's own
-                 slices; the copy of [measured] shares its arrays *)
-              match sm frefs with
+              (* data.References.Resolve(); data.References.Exclude(measured...): the
+                 files are the code's own slices; the copy of [measured] shares its
+                 arrays *)
+              match sm (resolved frefs) with
               | Ok s0 =>
                   let '(h2, o2) := hsm h1 measured in
                   match o2 with
@@ -346,11 +342,3 @@ Definition hvfc (h : heap) (files : outcome (list ref)) (l : list hstep) : heap 
       | _ => (h1, fail_of o)
       end
   end.
-
-(** ** When the value-level model (Model/Validators.v) is exact for one pass *)
-
-(** no slice of the log with fewer than two ranges has spare capacity: such a
-    slice is never re-allocated by Ranges.SortAndMerge, so the first append to it
-    writes into the log's array (finding C10-shared-backing-append) *)
-Definition small_ok (s : sl) : bool := (2 <=? sl_len s)%nat || (sl_cap s =? sl_len s)%nat.
-Definition no_small_spare (l : list hstep) : bool := forallb small_ok (windows l).
